@@ -241,7 +241,7 @@ def validate_traces(spec, traces, workdir, constants=None, init='TInit', next_='
     bad = [i for i in range(len(traces)) if i not in accepted]
     if bad:
         # localise: re-run the rejected traces verbosely and take the furthest position reached
-        sub = [traces[i] for i in bad[:20]]
+        sub = [traces[i] for i in bad[:400]]
         with open(tf, 'w') as f:
             json.dump(sub, f)
         r2 = run(spec, cfg, workdir=workdir, workers=1, timeout=timeout, env={'TRACE_FILE': tf, 'TRACE_VERBOSE': '1'})
@@ -249,8 +249,8 @@ def validate_traces(spec, traces, workdir, constants=None, init='TInit', next_='
         for v in printed_values(r2.output):
             if len(v) == 3 and v[0] == 'AT':
                 far[int(v[1]) - 1] = max(far.get(int(v[1]) - 1, 0), int(v[2]))
-        for j, i in enumerate(bad[:20]):
+        for j, i in enumerate(bad[:400]):
             rejected[i] = far.get(j, 1) - 1          # number of events matched
-        for i in bad[20:]:
+        for i in bad[400:]:
             rejected[i] = None
     return accepted, rejected, r
